@@ -147,8 +147,12 @@ def samplerCall (family : String) (ps : List Rat) : Option ScipyCall :=
   -- scale * beta.rvs(float(a), float(b))
   | "Beta", [a, b] => some ⟨"beta", [.q a, .q b], .q 0, .q 1, 1⟩
   | "Beta", [a, b, s] => some ⟨"beta", [.q a, .q b], .q 0, .q 1, s⟩
-  -- truncnorm.rvs(float(a), float(b), loc=float(mu), scale=math.sqrt(float(sigma2)))     (raw a, b !)
-  | "TruncNormal", [mu, s2, a, b] => some ⟨"truncnorm", [.q a, .q b], .q mu, .sqrt s2, 1⟩
+  -- mu, sigma = float(mu), math.sqrt(float(sigma2))
+  -- truncnorm.rvs((float(a) - mu) / sigma, (float(b) - mu) / sigma, loc=mu, scale=sigma)
+  -- (sigma = 0: ZeroDivisionError)
+  | "TruncNormal", [mu, s2, a, b] =>
+    if s2 = 0 then none
+    else some ⟨"truncnorm", [.divSqrt (a - mu) s2, .divSqrt (b - mu) s2], .q mu, .sqrt s2, 1⟩
   | _, _ => none
 
 /-- What the scipy documentation requires so that the sample has the law whose moments the analysis
